@@ -90,6 +90,19 @@ register('C02',
          'Coq proof (inductive invariant over event traces) + vm_compute replay of recorded traces against the real tables',
          'DESIGN.md §7 C02')
 
+register('C03',
+         'Coq theorems: (table level) writing the row of an entity at a transaction id that is at least every id in the table and '
+         'closing its predecessor yields the chain for that entity and leaves rows and chain of every other entity untouched; '
+         '(machine level) after every event of every trace - any number of flushes per transaction, deletes, re-inserts in one or '
+         'several transactions, interleaved entities, rollbacks, manual record creation - every version table satisfies its primary '
+         'key and every validity-strategy table the chain (inductive invariant, which also shows the version-object cache agrees '
+         'with the rows of the current transaction and the package never raises on them). Replayed against the real tables after '
+         'every flush/commit/rollback on every run.',
+         COMMON_NOTE + 'Monotone id allocation is the database\'s (modelled as 1+max, compared on every run). Joined-table inheritance is '
+         'covered by the theorem per table id but not yet exercised by the correspondence shapes.',
+         'Coq proof (table-level chain lemma + inductive machine invariant) + vm_compute replay of recorded traces against the real tables',
+         'DESIGN.md §7 C03')
+
 ALL = ['C%02d' % i for i in range(1, 21)]
 
 
